@@ -200,6 +200,17 @@ func (eng *Engine) discharge(g *Gen, o *Obl, dir string, idx int, timeout time.D
 		}
 		ans := try(solvers[0], file, to)
 		res.Answer, res.Solver = ans, solvers[0].Name
+		if ans != "unsat" {
+			// second opinion from a solver with a different quantifier engine (enumerative instantiation finds
+			// inconsistencies that need a term nobody wrote down: it caught an unsound shape axiom over all interface
+			// values that E-matching never instantiated badly)
+			f := base + ".cvc5.smt2"
+			os.WriteFile(f, []byte(cvc5Compat(q)), 0o644)
+			if a2 := try(solvers[3], f, 1500*time.Millisecond); a2 == "unsat" {
+				ans = a2
+				res.Answer, res.Solver = a2, solvers[3].Name
+			}
+		}
 		if ans == "unsat" {
 			res.Status = "proved"
 		} else {
